@@ -27,6 +27,11 @@ BOUNDS = {"quick": dict(N=3, calls="<= 2"), "thorough": dict(N=4, calls="<= 2")}
 OUTSIDE = ["the O(h^4) interpolation error bound between grid points (analytic estimate; exactness on cubics is C17)", "IEEE rounding"]
 
 
+ASSUMPTIONS = list(globals().get("ASSUMPTIONS", [])) + [
+    "continued-constants-replaced instances: the constants dict {k: k_old} is replaced by {k: k_new} (k_old != k_new) between the two calls; the uninterpreted rhs takes k as an argument",
+]
+
+
 def instances(tier):
     quick = tier == "quick"
     b = dict(wall_s=75 if quick else 600, max_paths=2500 if quick else 30000)
